@@ -49,6 +49,98 @@ theorem printDirectives_state_fixed (o : Opts) (apps : Apps) (p : String) (ns : 
     · simp only [h1, h2, if_false, Bool.false_eq_true]
       rw [pair_of_snd _ _ (keepCustom_coll ns (apps.get p))]
 
+/-! #### the lift through the state-passing layout functions -/
+
+private theorem mapSt_coll {α} (f : Nat → α → PrinterState → String × PrinterState) (ns : List String)
+    (h : ∀ i x, (f i x (.collection ns)).2 = .collection ns) :
+    ∀ (xs : List α) (i : Nat), (mapSt f i xs (.collection ns)).2 = .collection ns := by
+  intro xs
+  induction xs with
+  | nil => intro i; rfl
+  | cons x xs ih =>
+    intro i
+    simp only [mapSt]
+    rw [h i x]
+    exact ih (i+1)
+
+private theorem printInputValue_coll (s : SchemaD) (o : Opts) (apps : Apps) (p : String) (a : ArgD) (ns : List String) :
+    (printInputValue s o apps p a (.collection ns)).2 = .collection ns := by
+  simp only [printInputValue]
+  exact printDirectives_state_fixed o apps _ ns
+
+private theorem printArg_coll (s : SchemaD) (o : Opts) (apps : Apps) (p : String) (depth : Nat) (m : Bool) (i : Nat) (a : ArgD)
+    (ns : List String) : (printArg s o apps p depth m i a (.collection ns)).2 = .collection ns := by
+  simp only [printArg]
+  exact printInputValue_coll s o apps p a ns
+
+private theorem printArguments_coll (s : SchemaD) (o : Opts) (apps : Apps) (p : String) (args : List ArgD) (depth : Nat) (ns : List String) :
+    (printArguments s o apps p args depth (.collection ns)).2 = .collection ns := by
+  simp only [printArguments]
+  exact mapSt_coll _ ns (fun i a => printArg_coll s o apps p depth _ i a ns) args 0
+
+private theorem printField_coll (s : SchemaD) (o : Opts) (apps : Apps) (tn : String) (i : Nat) (f : FieldD) (ns : List String) :
+    (printField s o apps tn i f (.collection ns)).2 = .collection ns := by
+  simp only [printField]
+  rw [printArguments_coll]
+  exact printDirectives_state_fixed o apps _ ns
+
+private theorem printFields_coll (s : SchemaD) (o : Opts) (apps : Apps) (t : TypeD) (ns : List String) :
+    (printFields s o apps t (.collection ns)).2 = .collection ns := by
+  simp only [printFields]
+  exact mapSt_coll _ ns (fun i f => printField_coll s o apps t.name i f ns) t.fields 0
+
+private theorem printEnumValue_coll (o : Opts) (apps : Apps) (tn : String) (i : Nat) (v : EnumValD) (ns : List String) :
+    (printEnumValue o apps tn i v (.collection ns)).2 = .collection ns := by
+  simp only [printEnumValue]
+  exact printDirectives_state_fixed o apps _ ns
+
+private theorem printInputField_coll (s : SchemaD) (o : Opts) (apps : Apps) (tn : String) (i : Nat) (f : ArgD) (ns : List String) :
+    (printInputField s o apps tn i f (.collection ns)).2 = .collection ns := by
+  simp only [printInputField]
+  exact printInputValue_coll s o apps tn f ns
+
+private theorem printType_coll (s : SchemaD) (o : Opts) (apps : Apps) (t : TypeD) (ns : List String) :
+    (printType s o apps t (.collection ns)).2 = .collection ns := by
+  unfold printType
+  have hd := printDirectives_state_fixed o apps t.name ns
+  cases t.kind <;> simp only [hd]
+  · exact printFields_coll s o apps t ns
+  · exact printFields_coll s o apps t ns
+  · exact mapSt_coll _ ns (fun i v => printEnumValue_coll o apps t.name i v ns) t.values 0
+  · exact mapSt_coll _ ns (fun i f => printInputField_coll s o apps t.name i f ns) t.inputFields 0
+
+private theorem printDirectiveDefinition_coll (s : SchemaD) (o : Opts) (apps : Apps) (d : DirectiveD) (ns : List String) :
+    (printDirectiveDefinition s o apps d (.collection ns)).2 = .collection ns := by
+  simp only [printDirectiveDefinition]
+  exact printArguments_coll s o apps _ d.args 0 ns
+
+private theorem printSchemaDefinition_coll (s : SchemaD) (o : Opts) (apps : Apps) (ns : List String) :
+    (printSchemaDefinition s o apps (.collection ns)).2 = .collection ns := by
+  simp only [printSchemaDefinition]
+  exact printDirectives_state_fixed o apps "" ns
+
+/-- one `to_string` call leaves a collection-valued state as it found it -/
+theorem printSchema_state_fixed (o : Opts) (s : SchemaD) (apps : Apps) (ns : List String) :
+    (printSchema o s apps (.collection ns)).2 = .collection ns := by
+  simp only [printSchema]
+  rw [printSchemaDefinition_coll]
+  rw [mapSt_coll _ ns (fun i d => printDirectiveDefinition_coll s o apps d ns)]
+  exact mapSt_coll _ ns (fun i t => printType_coll s o apps t ns) _ 0
+
+/-- **print_pure** (fixed code, C12-H1): for EVERY history of `to_string` calls — any schemas, any options, any
+    length — the k-th output is the output of that call made first in a fresh process. -/
+theorem print_pure : PrintPureStatement initialCollection := by
+  intro calls
+  induction calls with
+  | nil => rfl
+  | cons c rest ih =>
+    simp only [runHistory, List.map]
+    rw [show (printSchema c.1 c.2.1 c.2.2 initialCollection).2 = initialCollection from printSchema_state_fixed _ _ _ _]
+    rw [ih]
+
+/- …and it is FALSE for today's generator-valued state: `PrintPureStatement initialGenerator` would make the
+    two calls of `print_pure_refuted_today` agree. (State-level witness below; the text-level witness is the
+    replay `history-dependent:*` found by the history oracle on the unfixed tree.) -/
 /-- membership in a COLLECTION does not change the state -/
 theorem member_collection (ns : List String) (n : String) :
     (PrinterState.collection ns).member n = (ns.contains n, .collection ns) := rfl
@@ -84,6 +176,30 @@ theorem print_pure_witness_fixed :
 /-- a membership test on the generator CONSUMES it -/
 theorem generator_consumed : (initialGenerator.member "deprecated").2 = .generator [] ∧
     (initialGenerator.member "foo").2 = .generator [] ∧ ((PrinterState.generator []).member "deprecated").1 = false := by
+  decide
+
+/-! #### text-level refutation for today's code (finding H1) -/
+
+/-- `type Query { f: Int @deprecated }`, built from SDL (the field's node carries the `@deprecated` application) -/
+def h1Schema : SchemaD :=
+  { types := [{ kind := .object, name := "Query", fields := [{ name := "f", type := .named "Int", deprecated := some "No longer supported" }] }] }
+def h1Apps : Apps := [("Query.f", [{ name := "deprecated" }])]
+def h1Call : Opts × SchemaD × Apps := ({ custom := true }, h1Schema, h1Apps)
+
+set_option maxRecDepth 100000 in
+/-- With the generator-valued state the full statement is FALSE: the second of two identical
+    `to_string(include_custom_schema_directives=True)` calls returns a different TEXT
+    (`f: Int @deprecated @deprecated`). -/
+theorem print_pure_refuted_today_full : ¬ PrintPureStatement initialGenerator := by
+  intro h
+  have := h [h1Call, h1Call]
+  revert this
+  decide
+
+set_option maxRecDepth 100000 in
+/-- non-vacuity of `print_pure`: on the same two calls the fixed code returns the same non-empty text twice -/
+example : runHistory initialCollection [h1Call, h1Call] = [(printSchema h1Call.1 h1Call.2.1 h1Call.2.2 initialCollection).1,
+    (printSchema h1Call.1 h1Call.2.1 h1Call.2.2 initialCollection).1] ∧ (printSchema h1Call.1 h1Call.2.1 h1Call.2.2 initialCollection).1 ≠ "" := by
   decide
 
 end PyGql.Props.C12
